@@ -7,7 +7,9 @@ import (
 	"fmt"
 	"hash/fnv"
 	"os"
+	"regexp"
 	"runtime/debug"
+	"runtime/pprof"
 	"sort"
 	"strings"
 
@@ -104,6 +106,8 @@ type Ctx struct {
 	caseLog  *os.File
 	curIdx   int64
 	maxViol  int
+	outPath  string
+	exhaustiveTotal int64
 }
 
 func (c *Ctx) Thorough() bool { return c.Tier == "thorough" }
@@ -220,16 +224,14 @@ func try(f func()) (panicked bool, msg string) {
 }
 
 // panicSite extracts a short, line-number-free site from a try() message.
+var panicSiteRe = regexp.MustCompile(`gmars\.((?:\(\*?\w+\)\.)?\w+)`)
+
 func panicSite(msg string) string {
-	i := strings.Index(msg, "gmars.")
-	if i < 0 {
+	m := panicSiteRe.FindStringSubmatch(msg)
+	if m == nil {
 		return "unknown"
 	}
-	s := msg[i:]
-	if j := strings.IndexAny(s, "( "); j > 0 {
-		s = s[:j]
-	}
-	return s
+	return m[1]
 }
 
 // ---------------------------------------------------------------------------
@@ -240,20 +242,32 @@ var opToG = [mars.NumOps]g.OpCode{g.DAT, g.MOV, g.ADD, g.SUB, g.MUL, g.DIV, g.MO
 var modToG = [mars.NumMods]g.OpMode{g.F, g.A, g.B, g.AB, g.BA, g.X, g.I}
 var modeToG = [mars.NumModes]g.AddressMode{g.DIRECT, g.IMMEDIATE, g.A_INDIRECT, g.B_INDIRECT, g.A_DECREMENT, g.B_DECREMENT, g.A_INCREMENT, g.B_INCREMENT}
 
-var opFromG, modFromG, modeFromG map[uint8]uint8
+var opFromG, modFromG, modeFromG [256]int16
 
 func init() {
-	opFromG, modFromG, modeFromG = map[uint8]uint8{}, map[uint8]uint8{}, map[uint8]uint8{}
+	for i := range opFromG {
+		opFromG[i], modFromG[i], modeFromG[i] = -1, -1, -1
+	}
+	n := 0
 	for i, v := range opToG {
-		opFromG[uint8(v)] = uint8(i)
+		if opFromG[uint8(v)] < 0 {
+			n++
+		}
+		opFromG[uint8(v)] = int16(i)
 	}
 	for i, v := range modToG {
-		modFromG[uint8(v)] = uint8(i)
+		if modFromG[uint8(v)] < 0 {
+			n++
+		}
+		modFromG[uint8(v)] = int16(i)
 	}
 	for i, v := range modeToG {
-		modeFromG[uint8(v)] = uint8(i)
+		if modeFromG[uint8(v)] < 0 {
+			n++
+		}
+		modeFromG[uint8(v)] = int16(i)
 	}
-	if len(opFromG) != int(mars.NumOps) || len(modFromG) != int(mars.NumMods) || len(modeFromG) != int(mars.NumModes) {
+	if n != int(mars.NumOps)+int(mars.NumMods)+int(mars.NumModes) {
 		panic("gmars enum values are not distinct")
 	}
 }
@@ -264,11 +278,11 @@ func toG(i mars.Insn) g.Instruction {
 
 // fromG converts a gmars instruction; ok is false when an enum is outside the data model.
 func fromG(i g.Instruction) (mars.Insn, bool) {
-	o, ok1 := opFromG[uint8(i.Op)]
-	m, ok2 := modFromG[uint8(i.OpMode)]
-	a, ok3 := modeFromG[uint8(i.AMode)]
-	b, ok4 := modeFromG[uint8(i.BMode)]
-	return mars.Insn{Op: mars.Op(o), Mod: mars.Mod(m), AM: mars.Mode(a), BM: mars.Mode(b), A: int(i.A), B: int(i.B)}, ok1 && ok2 && ok3 && ok4
+	o, m, a, b := opFromG[uint8(i.Op)], modFromG[uint8(i.OpMode)], modeFromG[uint8(i.AMode)], modeFromG[uint8(i.BMode)]
+	if o < 0 || m < 0 || a < 0 || b < 0 {
+		return mars.Insn{}, false
+	}
+	return mars.Insn{Op: mars.Op(o), Mod: mars.Mod(m), AM: mars.Mode(a), BM: mars.Mode(b), A: int(i.A), B: int(i.B)}, true
 }
 
 func toGCode(code []mars.Insn) []g.Instruction {
@@ -310,7 +324,14 @@ func main() {
 	flag.StringVar(&out, "out", "", "result file")
 	flag.StringVar(&c.Phase, "phase", "main", "phase name")
 	flag.StringVar(&caseLog, "caselog", "", "case log file")
+	var cpuprof string
+	flag.StringVar(&cpuprof, "cpuprofile", "", "write a CPU profile")
 	flag.Parse()
+	if cpuprof != "" {
+		f, _ := os.Create(cpuprof)
+		pprof.StartCPUProfile(f)
+		defer pprof.StopCPUProfile()
+	}
 	c.Race = raceEnabled
 	c.maxViol = 8
 	c.sets = map[string]map[uint64]struct{}{}
@@ -331,7 +352,14 @@ func main() {
 		}
 		c.caseLog = f
 	}
+	c.outPath = out
 	fn(&c)
+	c.finish()
+}
+
+// finish writes the shard result.
+func (c *Ctx) finish() {
+	out := c.outPath
 	c.res.Done = true
 	c.res.Sets = map[string][]uint64{}
 	for name, m := range c.sets {
